@@ -4,6 +4,7 @@ import IdspModel.Lemmas.Lp2Bibo
 import IdspModel.Lemmas.Lp2Reach
 import IdspModel.Lemmas.Lp2Wide
 import IdspModel.Lemmas.Lp2Phase
+import IdspModel.Lemmas.Lp2BigModel
 /-!
 # C10, second-order clause — `Lowpass<2>` with Butterworth gains: error recursion, no overflow, settling
 
@@ -27,6 +28,9 @@ What is proved here (all for BOTH build profiles):
   settled at one level (e.g. after `set()`, `lp2_reset_settled`) and switched to another never panics, its transient
   error stays below `1.25·2^30 + 65537`, and it settles (for ever) to within `4·2^32/k + 4` LSB, both `get()` and the
   returned outputs; it is then settled again, so the level may be switched again;
+* `lp2_level_change_pm2p30` — **parts 2+3 on the FULL range of the clause**: every documented pair, levels within
+  `±2^30`, every step size up to `2^31` (including the first updates in which the saturating subtraction clips):
+  never panics/wraps, and settles for ever to within `4·2^32/k + 4`; start states `Lp2Start2` (`lp2_start2_reset`);
 * `lp2_level_change_pm2p30_step` — parts 2+3 on the property's FULL level range `±2^30`, every documented pair, for
   steps `|x − xo| ≤ 3·2^28` (0.75·2^30); start states `Lp2Start` (`set()` states, `lp2_start_reset`, and the states
   reached at the end of this theorem, so levels may be switched again and again);
@@ -37,11 +41,9 @@ What is proved here (all for BOTH build profiles):
   whenever the input becomes a constant within `±2^28` the filter (never panicking) settles to within `4·2^32/k + 4`;
 * `lp2_settled_error` — for damping `ζ² = b²/(4a·2^32) ≤ 3/4` the bound `4·2^32/k + 4` holds in the WHOLE equilibrium
   level set (not only in its tight part).
-NOT proved (kept as `def … : Prop`): steps larger than `3·2^28` between levels within `±2^30`
-(`lp2_settles_full`; needs the asymmetric first-quadrant/decay argument — groundwork in `Lemmas/Lp2Phase.lean`:
-`lp2_phase1`, `lp2_phase1_len`, `lp2Q_iss_t` — and a treatment of the saturating subtraction, which really clips
-when the step is `2^31`), and the 5 % overshoot bound (`lp2_overshoot_full`); the transient bounds proved here only
-give "the error never exceeds 1.25× the largest admitted step".
+NOT proved (kept as `def … : Prop`): the 5 % overshoot bound (`lp2_overshoot_full`); the transient bounds proved here
+give no useful overshoot constant.  (`lp2_settles_full` is now proved, with start states `Lp2Start2` instead of
+arbitrary states of the equilibrium ellipse, by `lp2_level_change_pm2p30`.)
 -/
 namespace Idsp
 set_option linter.unusedVariables false
@@ -238,6 +240,72 @@ theorem lp2_level_change_pm2p30_step (m : Mode) {k a b x xo : Int} (h : Lp2Butte
     obtain ⟨s0, s1, s0', s1', y, e1, e2, ht, b1, b2⟩ := hN n hn
     exact ⟨s0, s1, s0', s1', y, e1, e2, lp2_start_of_tight h _ ht, b1, b2⟩
 
+/-- the `set(x)` state is a start state with small velocity -/
+theorem lp2_start2_reset {k a b : Int} (h : Lp2Butter k a b) (x : Int) (hx : inI 32 x = true) :
+    Lp2Start2 a b x (lpSet x, 0) := by
+  have ⟨hx0, hx1⟩ := inI_iff.mp hx
+  simp only [show (32 : Nat) - 1 = 31 from rfl, Int.reducePow, Int.reduceNeg] at hx0 hx1
+  have : lpSet x = x * 4294967296 := by
+    unfold lpSet; rw [wrapI64_id (by omega) (by omega)]; rfl
+  rw [this]; exact lp2_start2_of_set h x
+
+/-- **Parts 2 + 3 on the property's full range: EVERY documented Butterworth pair, levels within `±2^30`, ALL step
+    sizes up to `2^31`.**  The filter is in a start state at `|xo| ≤ 2^30` (`Lp2Start2`: settled, centred error at
+    most `2^19` LSB, velocity `|s1| ≤ 8·2^32`; e.g. `set(xo)`, `lp2_start2_reset`) and the input switches to the
+    constant `|x| ≤ 2^30`.  Then, in both build profiles,
+    (1) no update ever panics or wraps — the saturating subtraction `x − get()` MAY clip during the first updates of
+        a step of (nearly) `2^31`; this is part of the model and is covered;
+    (2) after finitely many updates, for ever: the state is again a start state (at `x`),
+        `|get() − x| ≤ 4·2^32/k + 4`, and every returned output satisfies `|y − x| ≤ 4·2^32/k + 4`.
+    Proof: steps up to `3·2^28` by the symmetric sector-safe region; larger steps by the approach-phase argument
+    (first-quadrant invariant, two-piece velocity bound, decay of the quadratic form over `⌊2^32/b⌋` steps, hand-off to
+    a sector-safe region of radius `< 2^30`). -/
+theorem lp2_level_change_pm2p30 (m : Mode) {k a b x xo : Int} (h : Lp2Butter k a b)
+    (hx0 : -1073741824 ≤ x) (hx1 : x ≤ 1073741824) (ho0 : -1073741824 ≤ xo) (ho1 : xo ≤ 1073741824)
+    (st : Int × Int) (hst : Lp2Start2 a b xo st) :
+    (∀ n, ∃ s0 s1, lp2Iter m x a (-b) n st = .ok (s0, s1, s0 / 4294967296)) ∧
+    ∃ N : Nat, ∀ n, N ≤ n → ∃ s0 s1 s0' s1' y,
+      lp2Iter m x a (-b) n st = .ok (s0, s1, s0 / 4294967296) ∧
+      lp2Update m s0 s1 x a (-b) = .ok (s0', s1', y) ∧
+      Lp2Start2 a b x (s0, s1) ∧
+      k * (|s0 / 4294967296 - x| - 4) ≤ 4 * 4294967296 ∧
+      k * (|y - x| - 4) ≤ 4 * 4294967296 := by
+  by_cases hsmall : -805306368 ≤ x - xo ∧ x - xo ≤ 805306368
+  · -- small step: the symmetric wide region
+    have hS := lp2_safe2_W h hx0 hx1
+    have hI := lp2_settled_inv2_W h hsmall.1 hsmall.2 st hst.1
+    obtain ⟨hrun, N, hN⟩ := lp2_settle_core' m h hS st hI
+    refine ⟨fun n => ⟨_, _, (hrun n).1⟩, N, fun n hn => ?_⟩
+    obtain ⟨s0, s1, s0', s1', y, e1, e2, ht, b1, b2⟩ := hN n hn
+    exact ⟨s0, s1, s0', s1', y, e1, e2, lp2_start2_of_tight h _ ht, b1, b2⟩
+  · -- large step
+    have ha := h.a_ge; have hal := h.a_le; have hbl := h.b_le; have hb0 := h.hb0
+    obtain ⟨sg, hsg, hd0, hd1⟩ : ∃ sg : Int, (sg = 1 ∨ sg = -1) ∧ 805306368 < sg * (x - xo) ∧
+        sg * (x - xo) ≤ 2147483648 := by
+      by_cases hpos : 0 ≤ x - xo
+      · exact ⟨1, Or.inl rfl, by omega, by omega⟩
+      · exact ⟨-1, Or.inr rfl, by omega, by omega⟩
+    obtain ⟨n1, hbox, hInv⟩ := lp2_big_model h hsg hx0 hx1 ho0 ho1 hd0 hd1 st hst
+    have hrunS : ∀ n, n ≤ n1 → lp2Iter m x a (-b) n st
+        = .ok ((lp2SeqS x a (-b) n st).1, (lp2SeqS x a (-b) n st).2, (lp2SeqS x a (-b) n st).1 / 4294967296) :=
+      fun n hn => lp2_seqS_run m x a (-b) (by omega) (by omega) (by omega) (by omega) n st
+        (fun j hj => hbox j (by omega))
+    have hS := bg_safe2 h hx0 hx1
+    obtain ⟨hrun2, N, hN⟩ := lp2_settle_core' m h hS (lp2SeqS x a (-b) n1 st) hInv
+    have hsplit : ∀ i, lp2Iter m x a (-b) (n1 + i) st = lp2Iter m x a (-b) i (lp2SeqS x a (-b) n1 st) := by
+      intro i
+      have := lp2Iter_add m x a (-b) n1 i st _ _ _ (hrunS n1 (le_refl _))
+      simpa using this
+    refine ⟨fun n => ?_, n1 + N, fun n hn => ?_⟩
+    · rcases Nat.le_total n n1 with hle | hge
+      · exact ⟨_, _, hrunS n hle⟩
+      · obtain ⟨i, rfl⟩ : ∃ i, n = n1 + i := ⟨n - n1, by omega⟩
+        rw [hsplit]; exact ⟨_, _, (hrun2 i).1⟩
+    · obtain ⟨i, rfl⟩ : ∃ i, n = n1 + i := ⟨n - n1, by omega⟩
+      obtain ⟨s0, s1, s0', s1', y, e1, e2, ht, b1, b2⟩ := hN i (by omega)
+      rw [hsplit]
+      exact ⟨s0, s1, s0', s1', y, e1, e2, lp2_start2_of_tight h _ ht, b1, b2⟩
+
 /-- **Part 2 for all histories, `±2^29`: bounded input ⇒ no overflow, bounded output.**  EVERY documented Butterworth
     pair; the start state is settled at some level `|xo| ≤ 2^29` (e.g. `set(xo)` — `lp2_reset_settled` — or the state
     reached in `lp2_level_change_pm2p29`); `xs` is an ARBITRARY input sequence with all samples within `±2^29`
@@ -340,6 +408,22 @@ example : ∃ N : Nat, ∀ n, N ≤ n → ∃ s0 s1 s0' s1' y,
     (by norm_num) (by norm_num) (by norm_num) (by norm_num) (lpSet 1073741824, 0)
     (lp2_start_reset hB 1073741824 (by decide))
   refine ⟨N, fun n hn => ?_⟩
+  obtain ⟨s0, s1, s0', s1', y, e1, e2, -, -, hy⟩ := hN n hn
+  exact ⟨s0, s1, s0', s1', y, e1, e2, by omega⟩
+
+/-- the extreme step of the clause: `set(-2^30)` then the constant `2^30` (step `2^31`, the subtraction clips in the
+    first update), `k = 2^24`, checked build: never panics and settles to within `1028` LSB -/
+example : (∀ n, ∃ s0 s1, lp2Iter .checked 1073741824 65536 (-23726566) n (lpSet (-1073741824), 0)
+      = .ok (s0, s1, s0 / 4294967296)) ∧
+    ∃ N : Nat, ∀ n, N ≤ n → ∃ s0 s1 s0' s1' y,
+      lp2Iter .checked 1073741824 65536 (-23726566) n (lpSet (-1073741824), 0) = .ok (s0, s1, s0 / 4294967296) ∧
+      lp2Update .checked s0 s1 1073741824 65536 (-23726566) = .ok (s0', s1', y) ∧
+      |y - 1073741824| ≤ 1028 := by
+  have hB : Lp2Butter 16777216 65536 23726566 := by constructor <;> norm_num
+  obtain ⟨hrun, N, hN⟩ := lp2_level_change_pm2p30 .checked (x := 1073741824) (xo := -1073741824) hB
+    (by norm_num) (by norm_num) (by norm_num) (by norm_num) (lpSet (-1073741824), 0)
+    (lp2_start2_reset hB (-1073741824) (by decide))
+  refine ⟨hrun, N, fun n hn => ?_⟩
   obtain ⟨s0, s1, s0', s1', y, e1, e2, -, -, hy⟩ := hN n hn
   exact ⟨s0, s1, s0', s1', y, e1, e2, by omega⟩
 
